@@ -85,6 +85,8 @@ def check_parse(rep, name, cx, r, decl, c, stats, samples, is_view):
             later = want[i + 1:]
             if w["k"] == "array" and w["shape"].get("k") == "rest" and not w.get("pad") and later:
                 cause, why = "after-open-array", "the element loop of an open-ended array consumes the whole input and the fields after it then never fit"
+            if w["k"] == "array" and w["shape"].get("k") == "rest" and w.get("pad") and later:
+                cause, why = "after-padded-open-array", "a padded array without size or count takes the whole input, so the fields after the padded region never fit"
         rep.add(f"C14|cxx|parse|always-rejects|{cause}", f"{c.name}::Parse returns false for every input ({why})", where)
         return
     cmp_ = DCmp(rep, where, r, decl, ev, prop="C14")
@@ -181,6 +183,30 @@ def check_builder(rep, name, cx, r, decl, c, stats, is_struct):
                     f"declared by {decl}; the fields inherited from {r.decls[decl].parent} (and GetSize's share of them) are "
                     f"missing from the encoding", where)
             return
+    tail_parent = None
+    for p_ in r.parent_chain(decl):
+        lay = [x for x in r.layout(p_) if x["k"] != "checksum_start"]
+        idx = next((i for i, x in enumerate(lay) if x["k"] == "payload"), None)
+        if idx is not None and idx + 1 < len(lay):
+            tail_parent = p_
+    if tail_parent is not None and not is_struct:
+        class _Q:
+            def __init__(self):
+                self.n = 0
+
+            def add(self, *a, **k):
+                self.n += 1
+        q2 = _Q()
+        try:
+            Cmp(q2, "C14", where, r, r.big, decl, side="cxxser").run(want, ev.items, ev.env)
+        except Exception:
+            q2.n = 1
+        if q2.n:
+            rep.add("C14|cxx|serialize|parent-tail-fields-misplaced", f"{c.name}::Serialize writes every inherited field before "
+                    f"the fields of {decl}: the fields {tail_parent} declares after its payload precede the child's fields on "
+                    f"the wire", where)
+        stats["serializers"] += 1
+        return
     cm = Cmp(rep, "C14", where, r, r.big, decl, side="cxxser")
     cm.run(want, ev.items, ev.env)
     stats["items"] += cm.n
